@@ -373,3 +373,35 @@ def goal_file_roundtrip(goal, lanes, fmt, path, state_class="custom"):
     sc2, pps2 = CommonRoadFileReader(path, file_format=ff).open()
     os.remove(path)
     return sc2, pps2, pps2.find_planning_problem_by_id(1)
+
+
+def query_state_cls(s):
+    """Query-state descriptor with a class tag `cls` (spec/Goal.tla KSC / PMC) -> state of that library class, all of them
+    storing exactly the abstract values: orientation th (grid), velocity v, lateral velocity vy where the class stores one.
+    Without `cls`: query_state."""
+    tag = s.get("cls")
+    if tag in (None, "KSState", "PMState"):
+        return query_state(s)
+    from commonroad.scenario.state import CustomState, ExtendedPMState, InitialState, MBState, STState
+    pos = np.array([s["p"][0] / 2.0, s["p"][1] / 2.0])
+    if s["kind"] == "pm":                      # CustomVV: velocity components, no stored orientation
+        return CustomState(time_step=s["t"], position=pos, velocity=float(s["vx"]), velocity_y=float(s["vy"]))
+    th = int(s["th"]) if s["thint"] else grid_angle(s["th"])
+    v = int(s["v"]) if s["vint"] else float(s["v"])
+    if tag == "STState":
+        return STState(time_step=s["t"], position=pos, orientation=th, velocity=v, steering_angle=0.0, yaw_rate=0.0,
+                       slip_angle=0.0)
+    if tag == "ExtendedPMState":               # velocity_y is a derived read-only property here
+        return ExtendedPMState(time_step=s["t"], position=pos, orientation=th, velocity=v, acceleration=0.0)
+    if tag == "MBState":
+        return MBState(time_step=s["t"], position=pos, orientation=th, velocity=v, steering_angle=0.0, yaw_rate=0.0,
+                       roll_angle=0.0, roll_rate=0.0, pitch_angle=0.0, pitch_rate=0.0, velocity_y=float(s["vy"]),
+                       position_z=0.0, velocity_z=0.0)
+    if tag == "InitialState":
+        return InitialState(time_step=s["t"], position=pos, orientation=th, velocity=v, acceleration=0.0, yaw_rate=0.0,
+                            slip_angle=0.0)
+    if tag == "CustomOV":
+        return CustomState(time_step=s["t"], position=pos, orientation=th, velocity=v)
+    if tag == "CustomOVV":
+        return CustomState(time_step=s["t"], position=pos, orientation=th, velocity=v, velocity_y=float(s["vy"]))
+    raise ValueError("unknown state class tag %r" % (tag,))
